@@ -7,12 +7,26 @@ import check
 LEVEL_TEXT = {
  'C01': ('exploration', 'Generated MON/LOCK programs on the deterministic simulator: every acquisition path (lock, rlock, try*, cv / mu / wait_n re-acquisition, deadline and cancel races) is checked against a harness shadow of who holds the mutex and against the AnnotateRWLock* observation points inside the library. Exploration of sampled schedules, not a proof.', '6.1'),
  'C02': ('exploration', 'Exact deadlock / livelock verdicts of the simulator on generated LOCK and MON programs (incl. FREEZE schedules that take away every rescuer): a thread asleep in lock/rlock while the mutex is free is a violation; try-locks may not reach a blocking primitive.', '6.2'),
- 'C03': ('exploration', 'Vector-clock happens-before race detector over client data and every non-atomic nsync field, crediting only the memory order each atomic call site declares (all three atomic.h flavours), on generated programs of all families.', '6.3'),
+ 'C03': ('exploration', 'Vector-clock happens-before race detector over client data and every non-atomic nsync field, crediting only the memory order each atomic call site declares (all three atomic.h flavours), on generated programs of the MON, LOCK, ONCE, NOTE, CTR and WAITN families.', '6.3'),
  'C04': ('exploration', 'Mark/snapshot accounting of which waiters a wake-up definitely covers, evaluated at quiescence on generated monitor programs with deadlines and cancellations racing the wake-up.', '6.4'),
  'C05': ('exploration', 'Assertions on every return of a timed / cancellable wait (mode, clock, note model, condition value) plus exact detection of a wait that keeps sleeping after its deadline or cancellation.', '6.5'),
  'C06': ('exploration', 'At quiescence no nsync_mu_wait caller may sleep with a true condition; inside every condition callback no other thread may be inside a write critical section.', '6.6'),
- 'C13': ('exploration', 'Arena and fiber-stack lifetime tracking: any access to a freed block or to a dead part of another thread\'s stack by nsync code is a violation.', '6.13'),
+ 'C07': ('exploration', 'Generated ONCE programs (4 variants, onces sharing an internal lock, nested calls, scheduling points inside the function): run count, completion flag after every return, no blocking after done.', '6.7'),
+ 'C08': ('exploration', 'Generated note trees with deadlines; every observation is checked against a model of causes over the recorded history, the tree state at every quiescence and at the end, expiry against the chain minimum.', '6.8'),
+ 'C09': ('exploration', 'Generated notify / poll / wait / new-child / free programs on a parent-child-grandchild family with a harness gate for the free precondition; exact deadlock verdicts, freed-memory tracking, final adoption check. Two open known findings (the disconnecting protocol) are excluded by history pattern and counted.', '6.9'),
+ 'C10': ('exploration', 'Generated counter programs; returned values checked for linearizability against an integer, wait results against the value history, release of every waiter at zero.', '6.10'),
+ 'C11': ('exploration', 'Generated nsync_wait_n calls over notes, counters, cvs and a logging probe waitable (stack and heap bookkeeping), with actors making objects ready at any point; result index vs. object state and clock, lock protocol log, leftover registrations.', '6.11'),
+ 'C12': ('fault_enumeration', 'The real nsync_semaphore_futex.c on a modelled futex with a generated vector of injected EINTR / EAGAIN / early-ETIMEDOUT / spurious-0 returns and generated schedules at the granularity of its atomics and futex calls; token accounting.', '6.12'),
+ 'C13': ('exploration', 'Arena and fiber-stack lifetime tracking: any access to a freed block or to a dead part of another thread\'s stack by nsync code is a violation; reference-count programs, and wakers racing nsync_wait_n / cancellable waits.', '6.13'),
+ 'C14': ('exploration', 'Adversarial scheduling policy (victim runs only while a barger holds the mutex) with generated perturbations, plus random / PCT schedules; the number of times the victim goes back to sleep in one lock call is bounded by 31+2T+2.', '6.14'),
+ 'C15': ('exploration', 'Real libnsync.a / libnsync_cpp.a rebuilt by cmake from the working tree; exhaustive boundary grid of deadlines x 9 timed entry points x 2 libraries plus rapidcheck random deadlines, one child process per case with a watchdog.', '6.15'),
+ 'C16': ('exploration', 'C01/C02/C04 oracles with debug-state callers added to generated LOCK/MON programs; and for frozen mutex/cv states with 0..3 queued waiters every buffer size 0..80 (exhaustive) with canaries and the output(n) vs output(1024) relation.', '6.16'),
+ 'C17': ('exploration', 'Exhaustive enumeration of the reachable model-state graph (5 elements, 2 lists) executing every legal operation on the real dll.c against an array model; rapidcheck sequences and a libFuzzer target over 8 elements / 3 lists; ASan+UBSan.', '6.17'),
+ 'C18': ('exploration', 'Exhaustive boundary grid and rapidcheck / libFuzzer generated normalized pairs against 128-bit integer arithmetic, for the C file and the C++ file linked into one binary; UBSan.', '6.18'),
+ 'C19': ('fault_enumeration', 'For every generated script of constructor calls, every allocation made from note.c / counter.c call sites is failed in turn (exhaustive per script) on the simulated allocator; NULL result, unchanged and usable existing objects.', '6.19'),
 }
+NATIVE_NOTE = 'trusted base: the reference model / 128-bit oracle / child-process judge in native/, clang sanitizers, rapidcheck and libFuzzer; C15 depends on the host clock (watchdog hits are re-run, only 3/3 hangs count)'
+NATIVE_TECH = {'C15': 'property-based testing (exhaustive boundary grid + rapidcheck-generated deadlines against the real libraries, one child process per case)', 'C17': 'model-based property testing (exhaustive state-graph enumeration + rapidcheck sequences + libFuzzer, array reference model, ASan/UBSan)', 'C18': 'property-based testing and fuzzing (exhaustive boundary grid + rapidcheck + libFuzzer against a 128-bit integer oracle, UBSan)'}
 TECH = 'property-based testing (rapidcheck-generated programs+schedules on a deterministic simulator of the nsync platform layer, explicit oracle, shrinking to a replay tape)'
 
 def main():
@@ -21,17 +35,17 @@ def main():
     na = []
     for p in props:
         pid = p['id']
-        if pid in check.PROPS and pid in LEVEL_TEXT:
+        if (pid in check.PROPS or pid in check.NATIVE) and pid in LEVEL_TEXT:
             cat, text, ref = LEVEL_TEXT[pid]
             checks.append(dict(property_id=pid,
                                quick_cmd=f'python3 tools/check.py {pid} --tier quick',
                                thorough_cmd=f'python3 tools/check.py {pid} --tier thorough',
                                evidence_file=f'/verif/evidence/{pid}.json',
                                replay_cmd_template=f'python3 tools/check.py {pid} --replay {{path}}',
-                               engine=check.PROPS[pid].get('engine', 'simrt'),
+                               engine=('native' if pid in check.NATIVE else 'simrt'),
                                level_claimed=dict(category=cat, text=text, design_ref='DESIGN.md section ' + ref),
-                               level_note=check.PROPS[pid].get('level_note', 'trusted base: the simulated platform layer (sim/platform, sim/rt), the scenario interpreter and its oracles; clang -fsanitize=thread instrumentation delivering every atomic with its declared order; bounded programs and sampled schedules'),
-                               technique=check.PROPS[pid].get('technique', TECH)))
+                               level_note=(NATIVE_NOTE if pid in check.NATIVE else check.PROPS[pid].get('level_note', None)) or ('trusted base: the simulated platform layer (sim/platform, sim/rt), the scenario interpreter and its oracles; clang -fsanitize=thread instrumentation delivering every atomic with its declared order; bounded programs and sampled schedules'),
+                               technique=(NATIVE_TECH[pid] if pid in check.NATIVE else TECH)))
         else:
             na.append(dict(property_id=pid, reason='check not built yet in this round (planned, see DESIGN.md section 6); nothing is claimed for it'))
     m = dict(version=1,
